@@ -44,10 +44,19 @@ def make_case(seed, i):
     loc = rng.choice(LOCATIONS)
     if loc in ("import", "graph", "version_import") and cfg.imports == 0:
         cfg.imports = rng.randint(1, 2)
+    lookalike = loc in ("main", "version") and rng.fork("lookalike").chance(0.3)
+    if lookalike:
+        cfg.imports = max(cfg.imports, 2)       # two imported namespaces that define a type of the same name (below)
     targets = [t for t in ("cpp", "python", "json", "matlab") if rng.chance(0.6)] or ["json"]
     cfg.odd_namespaces = True
     pkg = M.gen_package(rng.next(), cfg, targets=targets)
     M.randomize_target_options(pkg, rng.fork("options"), p=0.3)
+    sh = rng.fork("sharedname")
+    if len(pkg.imports) >= 2 and (lookalike or sh.chance(0.6)):
+        # the same type name in two imported packages (each namespace has its own)
+        nm = "Common%s" % sh.choice(M.WORDS).capitalize()
+        for k_, imp_ in enumerate(pkg.imports[:2]):
+            imp_.files[sorted(imp_.files)[0]].append(M.Record(nm, (), [("f%d" % k_, M.Prim(sh.choice(["int32", "string"])))]))
     # output directory placement: sibling tree or inside the package directory
     for t in targets:
         if rng.chance(0.25):
@@ -61,7 +70,7 @@ def make_case(seed, i):
     files, what = None, None
     r2 = rng.fork("inv")
     if loc == "main":
-        files, what = E.invalidate(valid_files, "/w/pkg", r2, r2.choice(["yaml_syntax", "duplicate_type", "unknown_type", "bad_field_name", "stream_in_record"] + E.RULE_KINDS))
+        files, what = E.invalidate(valid_files, "/w/pkg", r2, "generic_given_one_type_twice" if lookalike else r2.choice(["yaml_syntax", "duplicate_type", "unknown_type", "bad_field_name", "stream_in_record"] + E.RULE_KINDS))
     elif loc == "manifest":
         files, what = E.invalidate(valid_files, "/w/pkg", r2, r2.choice(["unknown_manifest_key", "missing_namespace", "dup_version_label"]))
     elif loc == "import" and pkg.imports:
@@ -69,7 +78,7 @@ def make_case(seed, i):
         files, what = E.invalidate(valid_files, "/w/" + imp.dirname, r2, r2.choice(["yaml_syntax", "yaml_syntax", "duplicate_type", "unknown_type", "bad_field_name", "unknown_manifest_key", "missing_namespace"] + E.RULE_KINDS))
     elif loc == "version" and pkg.versions:
         _, v = r2.choice(pkg.versions)
-        files, what = E.invalidate(valid_files, "/w/" + v.dirname, r2, r2.choice(["yaml_syntax", "duplicate_type", "unknown_type", "bad_field_name"] + E.RULE_KINDS))
+        files, what = E.invalidate(valid_files, "/w/" + v.dirname, r2, "generic_given_one_type_twice" if lookalike else r2.choice(["yaml_syntax", "duplicate_type", "unknown_type", "bad_field_name"] + E.RULE_KINDS))
     elif loc == "version_import" and pkg.versions:
         # the only error is in a package that a previous version imports (its own archived copy of it)
         _, v = r2.choice(pkg.versions)
